@@ -73,7 +73,7 @@ def mc_configs(prop, tier, sd):
     if tier == "quick":
         cfgs.append(("AB flags, 2 calls, <=1 veto, shard 1/4",
                      dict(base, Names="<-NamesAB", MaxCalls=2, MaxVeto=1, UseAfter=(prop == "C05"),
-                          UseFlags=(prop != "C05"), ShardMod=4, ShardIdx=sd % 4), 150))
+                          UseFlags=(prop != "C05"), ShardMod=4, ShardIdx=sd % 4), 900))
     else:
         cfgs.append(("AB flags, 2 calls, <=2 veto",
                      dict(base, Names="<-NamesAB", MaxCalls=2, MaxVeto=2, UseAfter=False,
